@@ -23,7 +23,11 @@ CONSTANTS Version,      \* 4 | 5
                         \* (fix: commits in /repo); {} = the code as pinned
 
 NONE == "none"
-AllFixes == {"pubcomp_collision", "clean_collision", "rel_id_reuse", "clean_order", "clean_start_rotation", "replay_window", "pkid_wrap"}
+AllFixes == {"pubcomp_collision", "clean_collision", "rel_id_reuse", "clean_order", "clean_start_rotation", "replay_window", "pkid_wrap",
+             "ack_failure"}
+\* MQTT 5 acknowledgements carry a reason code; p.q = 1 on a puback / pubrec / pubrel / pubcomp stands for a failure code
+\* (anything but Success / NoMatchingSubscribers), which ends the flow of that packet id.
+Failed(p) == Version = 5 /\ p.q = 1
 \* "no packet" for slots and the collision (a record, so that TLC can compare it with packets)
 NOPK == [t |-> "none", id |-> 0, q |-> 0, m |-> 0]
 
@@ -110,13 +114,17 @@ InPublish(s, p) ==
                     IF ManualAcks THEN R(s1, <<>>, <<>>, NONE)
                     ELSE R(s1, <<Pk("pubrec", p.id, 0, 0)>>, <<EvOut("pubrec", p.id)>>, NONE)
 
+\* As pinned a failure code returns early: PUBACK before the waiting collision is looked at, PUBREC before the window
+\* counter is given back (it is given back on PUBCOMP, which will never come).  Repaired ("ack_failure"): the flow is
+\* over, so the counter is given back and a publish waiting for this id takes it over, exactly as on success.
 InPubAck(s, p) ==
     LET k == p.id IN
     IF k > N THEN R(s, <<>>, <<>>, "Unsolicited")
     ELSE LET s0 == IF Version = 4 THEN [s EXCEPT !.lastPuback = k] ELSE s IN
          IF s0.outPub[k] = NOPK THEN R(s0, <<>>, <<>>, "Unsolicited")
          ELSE LET s1 == Dec([s0 EXCEPT !.outPub[k] = NOPK]) IN
-              IF TakeCollision(s1, k)
+              IF Failed(p) /\ "ack_failure" \notin Fix THEN R(s1, <<>>, <<>>, NONE)
+              ELSE IF TakeCollision(s1, k)
                 THEN LET c == s1.collision IN
                      R([s1 EXCEPT !.outPub[k] = c, !.inflight = @ + 1, !.collision = NOPK, !.collPing = 0],
                        <<c>>, <<EvOut("publish", k)>>, NONE)
@@ -126,11 +134,21 @@ InPubRec(s, p) ==
     LET k == p.id IN
     IF k > N THEN R(s, <<>>, <<>>, "Unsolicited")
     ELSE IF s.outPub[k] = NOPK THEN R(s, <<>>, <<>>, "Unsolicited")
+    ELSE IF Failed(p) THEN
+         IF "ack_failure" \notin Fix THEN R([s EXCEPT !.outPub[k] = NOPK], <<>>, <<>>, NONE)
+         ELSE LET s1 == Dec([s EXCEPT !.outPub[k] = NOPK]) IN
+              IF TakeCollision(s1, k)
+                THEN LET c == s1.collision IN
+                     R([s1 EXCEPT !.outPub[k] = c, !.inflight = @ + 1, !.collision = NOPK, !.collPing = 0],
+                       <<c>>, <<EvOut("publish", k)>>, NONE)
+                ELSE R(s1, <<>>, <<>>, NONE)
     ELSE R([s EXCEPT !.outPub[k] = NOPK, !.outRel = @ \cup {k}],
            <<Pk("pubrel", k, 0, 0)>>, <<EvOut("pubrel", k)>>, NONE)
 
+\* a PUBREL with a failure code: the inbound flow is dropped, no PUBCOMP (as the code does; not demanded otherwise)
 InPubRel(s, p) ==
     IF p.id \notin s.inPub THEN R(s, <<>>, <<>>, "Unsolicited")
+    ELSE IF Failed(p) THEN R([s EXCEPT !.inPub = @ \ {p.id}], <<>>, <<>>, NONE)
     ELSE R([s EXCEPT !.inPub = @ \ {p.id}], <<Pk("pubcomp", p.id, 0, 0)>>, <<EvOut("pubcomp", p.id)>>, NONE)
 
 \* A collision resolved by PUBCOMP.  Repaired ("pubcomp_collision"): the waiting publish takes over the id,
@@ -140,6 +158,8 @@ InPubComp(s, p) ==
     LET k == p.id IN
     IF "pubcomp_collision" \in Fix THEN
         IF k \notin s.outRel THEN R(s, <<>>, <<>>, "Unsolicited")
+        \* as pinned a failure code returns before the counter is given back and the collision is looked at
+        ELSE IF Failed(p) /\ "ack_failure" \notin Fix THEN R([s EXCEPT !.outRel = @ \ {k}], <<>>, <<>>, NONE)
         ELSE LET s1 == Dec([s EXCEPT !.outRel = @ \ {k}]) IN
              IF TakeCollision(s1, k)
                THEN LET c == s1.collision IN
